@@ -32,6 +32,11 @@ theorem guard_accepts_exactly_valid_slots (u : Int) :
     (rejects Gen.Money.passwdGuard u = false ↔ Valid u) :=
   ⟨setGuard_iff u, deGuard_iff u, passwdGuard_iff u⟩
 
+/-- in `ptt.SetupNewUser` (calls in source order, regenerated), what follows `cache.SetUserID` is: set the balance
+(`cache.SetUMoney`), then write the record (`passwdSyncUpdate`) — in that order, nothing else. -/
+theorem registration_sets_money_before_record :
+    (Gen.Reg.setupNewUserCalls.dropWhile (· != "setUserID")).drop 1 = ["setMoney", "writeRecord"] := by decide
+
 /-! #### one step refines the abstract table -/
 
 /-- what the abstract table says an operation answers (`none`: `MoneyOf` on an invalid slot, not specified). -/
@@ -41,6 +46,7 @@ def specAns (b : Bal) : Op → Option (Int × Err)
   | .get u => if Valid u then some (b u, .none) else none
   | .sync u _ perm => if Valid u then some (Int.ofNat perm, .none) else some (0, .invalidUID)
   | .load u => if Valid u then some (b u, .none) else some (0, .invalidUserID)
+  | .newuser u _ _ => if Valid u then some (0, .none) else some (0, .invalidUID)
 
 /-- every operation, on every slot (valid or not), inside int32: the new state represents the new abstract table
 — SHM on every valid slot, .PASSWDS on every slot that agreed before or was just written — and the answer is
@@ -109,12 +115,20 @@ theorem money_refines (s : State) (b : Bal) (D : Int → Prop) (o : Op) (h : Agr
           · rfl
           · exact absurd ((uidIsValid_iff u).1 h') hu
         simp [passwdQuery, hv]
+  | newuser u rec m =>
+      simp only [specAns] at hr
+      simp only [step]
+      by_cases hu : Valid u
+      · rw [if_pos hu] at hr; cases hr
+        rw [(agree_newuser s b D u m rec h hu hno.1 hno.2).1]; rfl
+      · rw [if_neg hu] at hr; cases hr
+        rw [newuser_invalid s u m rec hu]; rfl
 
 /-! #### histories -/
 
 /-- after ANY sequence of set / credit / debit / read operations and whole-record writes (`ptt.SetUserPerm`
-with ANY record the caller may hold — however stale its Money) and record loads, interleaved in any order, on
-ANY slots, whose arithmetic stays inside int32, starting from a state where SHM and .PASSWDS hold `b₀`: for every valid slot (first and last included)
+with ANY record the caller may hold — however stale its Money), record loads and registrations into ANY slot
+(whatever balance the slot still held), interleaved in any order, on ANY slots, whose arithmetic stays inside int32, starting from a state where SHM and .PASSWDS hold `b₀`: for every valid slot (first and last included)
 the SHM value, the little-endian int32 in the `Money` bytes of the slot's record and the abstract balance are
 the same; the state is still well-formed. -/
 theorem money_history (s₀ : State) (b₀ : Bal) (os : List Op) (h : Agree s₀ b₀ (fun _ => True))
@@ -201,13 +215,14 @@ theorem writes_never_fault (s : State) (u m : Int) (hs : s.shm.length = MAX) :
 /-! #### frame: nothing but the four Money bytes of the addressed record changes -/
 
 /-- the bytes of `.PASSWDS` an operation addressed to the valid slot `u` may change: the four `Money` bytes of
-record `u` for set / credit / debit, the whole record `u` for a whole-record write, nothing for reads. -/
+record `u` for set / credit / debit, the whole record `u` for a whole-record write or a registration, nothing
+for reads. -/
 def span (o : Op) (u : Int) (i : Nat) : Prop :=
   match o with
   | .set _ _ | .de _ _ =>
       Gen.Money.recSize * (u - 1).toNat + Gen.Money.moneyOffset ≤ i ∧
       i < Gen.Money.recSize * (u - 1).toNat + Gen.Money.moneyOffset + 4
-  | .sync _ _ _ =>
+  | .sync _ _ _ | .newuser _ _ _ =>
       Gen.Money.recSize * (u - 1).toNat ≤ i ∧ i < Gen.Money.recSize * (u - 1).toNat + Gen.Money.recSize
   | _ => False
 
@@ -218,7 +233,7 @@ theorem money_frame (s : State) (f : List Nat) (o : Op) (hs : s.shm.length = MAX
     (hlen : f.length = Gen.Money.recSize * MAX) (hrec : RecOK o) :
     ∃ f', (step s o).1.file = some f' ∧ f'.length = f.length ∧
       ∀ i, (∀ u, Valid u → writes o u → ¬ span o u i) → f'[i]? = f[i]? := by
-  rcases step_shape s f o hs hf with e | ⟨u, m', hu, hw, e⟩ | ⟨u, rec, perm, v, ho, hu, hc, e⟩
+  rcases step_shape s f o hs hf hlen hrec with e | ⟨u, m', hu, hw, e⟩ | ⟨u, r, shm', hu, hw, hrw, hr, e, _⟩
   · rw [e]; exact ⟨f, hf, rfl, fun _ _ => rfl⟩
   · rw [e]
     obtain ⟨_, hk, _⟩ := valid_bounds u hu
@@ -227,6 +242,7 @@ theorem money_frame (s : State) (f : List Nat) (o : Op) (hs : s.shm.length = MAX
     refine ⟨_, rfl, writeAt_length _ _ _ hin, ?_⟩
     intro i hi
     have := hi u hu hw
+    have hlay := gen_facts.2.2.2.1
     rw [getElem?_writeAt _ _ _ _ hin, le32_length]
     cases o with
     | set _ _ =>
@@ -237,33 +253,34 @@ theorem money_frame (s : State) (f : List Nat) (o : Op) (hs : s.shm.length = MAX
           i < Gen.Money.recSize * (u - 1).toNat + Gen.Money.moneyOffset + 4) from this)]
     | get _ => exact absurd hw (by simp [writes])
     | load _ => exact absurd hw (by simp [writes])
-    | sync _ _ _ =>
-        -- a whole-record write never takes this shape on a state whose step is a set; but the frame holds anyway
-        have hlay := gen_facts.2.2.2.1
-        rw [if_neg (by simp only [span] at this; omega)]
-  · subst ho
-    rw [e]
-    have hr : (recSetMoney (recSetLevel rec perm) v).length = Gen.Money.recSize :=
-      recSetMoney_length _ _ (recSetLevel_length rec perm hrec)
+    | sync _ _ _ => rw [if_neg (by simp only [span] at this; omega)]
+    | newuser _ _ _ => rw [if_neg (by simp only [span] at this; omega)]
+  · rw [e]
     obtain ⟨_, hk, _⟩ := valid_bounds u hu
-    have hin : Gen.Money.recSize * (u - 1).toNat + (recSetMoney (recSetLevel rec perm) v).length ≤ f.length := by
+    have hin : Gen.Money.recSize * (u - 1).toNat + r.length ≤ f.length := by
       have h1 : Gen.Money.recSize * ((u - 1).toNat + 1) ≤ Gen.Money.recSize * MAX := Nat.mul_le_mul_left _ hk
       rw [Nat.mul_succ] at h1
       rw [hr, hlen]; exact h1
     refine ⟨_, rfl, writeAt_length _ _ _ hin, ?_⟩
     intro i hi
-    have := hi u hu rfl
-    simp only [span] at this
-    rw [getElem?_writeAt _ _ _ _ hin, hr, if_neg this]
+    have := hi u hu hw
+    rw [getElem?_writeAt _ _ _ _ hin, hr]
+    cases o with
+    | sync _ _ _ => rw [if_neg (show ¬ (_ ∧ _) from this)]
+    | newuser _ _ _ => rw [if_neg (show ¬ (_ ∧ _) from this)]
+    | set _ _ => simp [recWrite] at hrw
+    | de _ _ => simp [recWrite] at hrw
+    | get _ => simp [recWrite] at hrw
+    | load _ => simp [recWrite] at hrw
 
 /-- EVERY operation: the record of every other valid slot is byte-identical, and the SHM entry of every other
-valid slot — for a whole-record write: of every slot — is unchanged. -/
+valid slot is unchanged. -/
 theorem other_records_identical (s : State) (f : List Nat) (o : Op) (hs : s.shm.length = MAX)
     (hf : s.file = some f) (hlen : f.length = Gen.Money.recSize * MAX) (hrec : RecOK o) (v : Int) (hv : Valid v)
     (hnw : ¬ writes o v) :
     (∃ f', (step s o).1.file = some f' ∧ record f' v = record f v) ∧
     shmAt (step s o).1 v = shmAt s v := by
-  rcases step_shape s f o hs hf with e | ⟨u, m', hu, hw, e⟩ | ⟨u, rec, perm, w, ho, hu, hc, e⟩
+  rcases step_shape s f o hs hf hlen hrec with e | ⟨u, m', hu, hw, e⟩ | ⟨u, r, shm', hu, hw, _, hr, e, hshm⟩
   · rw [e]; exact ⟨⟨f, hf, rfl⟩, rfl⟩
   · rw [e]
     have hne : v ≠ u := by
@@ -278,12 +295,10 @@ theorem other_records_identical (s : State) (f : List Nat) (o : Op) (hs : s.shm.
       have hlay := gen_facts.2.2.2.1
       rcases blocks_apart _ _ (slot_ne u v hu hv hne) with h1 | h1 <;> omega
     · rw [shmAt_afterSet s f u m' v hs hu hv, if_neg hne]
-  · subst ho
-    rw [e]
-    have hne : v ≠ u := fun h => hnw h
-    have hr : (recSetMoney (recSetLevel rec perm) w).length = Gen.Money.recSize :=
-      recSetMoney_length _ _ (recSetLevel_length rec perm hrec)
-    refine ⟨⟨_, rfl, ?_⟩, rfl⟩
+  · rw [e]
+    have hne : v ≠ u := by
+      intro h; subst h; exact hnw hw
+    refine ⟨⟨_, rfl, ?_⟩, hshm v hv hne⟩
     rw [record_afterSync f u v _ hlen hr hu hv, if_neg hne]
 
 /-! #### the whole-record path keeps SHM and .PASSWDS in step -/
@@ -329,6 +344,37 @@ theorem syncupdate_keeps_agreement (s : State) (b : Bal) (D : Int → Prop) (u :
     · intro v hv hne
       exact ⟨f, hf, by rw [record_afterSync f u v _ hlen hl2 hu hv, if_neg hne]⟩
 
+/-- an accepted registration (`ptt.SetupNewUser`, after the slot `u` was chosen) with starting balance `m`, on a slot
+that may still hold ANY balance of a deleted user (in SHM, on disk, or both — `D` may exclude `u`): it succeeds;
+afterwards SHM money = .PASSWDS money = `m`; every other byte of record `u` is the registration record; all other
+records and all other SHM entries are unchanged. -/
+theorem newuser_balance (s : State) (b : Bal) (D : Int → Prop) (u m : Int) (rec : List Nat)
+    (h : Agree s b D) (hu : Valid u) (hm : Int32 m) (hr : rec.length = Gen.Money.recSize) :
+    (step s (.newuser u rec m)).2 = .ok (0, .none) ∧
+    shmAt (step s (.newuser u rec m)).1 u = some m ∧
+    diskAt (step s (.newuser u rec m)).1 u = some m ∧
+    ∃ f', (step s (.newuser u rec m)).1.file = some f' ∧
+      (∀ j, ¬ (Gen.Money.moneyOffset ≤ j ∧ j < Gen.Money.moneyOffset + 4) → (record f' u)[j]? = rec[j]?) ∧
+      ∀ v, Valid v → v ≠ u →
+        shmAt (step s (.newuser u rec m)).1 v = shmAt s v ∧ ∃ f, s.file = some f ∧ record f' v = record f v := by
+  have hag := agree_newuser s b D u m rec h hu hm hr
+  obtain ⟨⟨hs, f, hf, hlen⟩, _, _⟩ := h
+  have hl := recSetMoney_length rec m hr
+  have e : (step s (.newuser u rec m)).1 = afterNew s f u rec m := by
+    simp only [step]; rw [newuser_valid s f u m rec hs hf hlen hr hu]
+  have hupd : upd b u m u = m := by simp [upd]
+  refine ⟨?_, ?_, ?_, ?_⟩
+  · simp only [step]; rw [hag.1]; rfl
+  · simp only [step]; rw [(hag.2.2.1 u hu).1, hupd]
+  · simp only [step]; rw [hag.2.2.2 u hu (Or.inr rfl), hupd]
+  · rw [e]
+    refine ⟨_, rfl, ?_, ?_⟩
+    · intro j hj
+      rw [record_afterSync f u u _ hlen hl hu hu, if_pos rfl, recSetMoney_other rec m hr j hj]
+    · intro v hv hne
+      refine ⟨?_, f, hf, by rw [record_afterSync f u v _ hlen hl hu hv, if_neg hne]⟩
+      exact List.getElem?_set_ne (Ne.symm (slot_ne u v hu hv hne))
+
 /-- `passwdSyncQuery` (through `ptt.GetUser`) on a valid slot returns a record whose Money is the SHM value = the
 abstract balance, whatever the Money bytes of .PASSWDS are; every other byte is the (bool-normalised) file record. -/
 theorem syncquery_returns_balance (s : State) (b : Bal) (D : Int → Prop) (u : Int) (h : Agree s b D) (hu : Valid u) :
@@ -349,7 +395,7 @@ theorem syncquery_returns_balance (s : State) (b : Bal) (D : Int → Prop) (u : 
 
 /-! #### balances never go negative -/
 
-/-- if every balance is ≥ 0 at the start and every `set` stores a value ≥ 0, then after any history inside
+/-- if every balance is ≥ 0 at the start and every `set` and every registration stores a value ≥ 0, then after any history inside
 int32 every valid slot holds one and the same value ≥ 0 in SHM and in .PASSWDS. -/
 theorem money_nonneg (s₀ : State) (b₀ : Bal) (os : List Op) (h : Agree s₀ b₀ (fun _ => True))
     (hno : NoOverflowRun b₀ os) (h0 : ∀ u, Valid u → 0 ≤ b₀ u) (hsets : SetsNonneg os) :
@@ -429,7 +475,7 @@ theorem zeroState_agree : Agree zeroState (fun _ => 0) (fun _ => True) := by
 /-- a history inside int32 with a credit, a debit below zero, a set at the int32 limit on the last slot and an
 operation on an invalid slot. -/
 example : NoOverflowRun (fun _ => 0)
-    [.de 1 5, .load 1, .de 1 (-7), .sync 1 (List.replicate Gen.Money.recSize 0) 7,
+    [.de 1 5, .load 1, .de 1 (-7), .sync 1 (List.replicate Gen.Money.recSize 0) 7, .newuser 3 (List.replicate Gen.Money.recSize 0) 25,
      .set (MAX : Int) 2147483647, .de (MAX : Int) (-2147483647), .set 0 9, .get 1] := by
   have hmax : MAX = 50 := by decide
   simp [NoOverflowRun, NoOverflow, specStep, Int32, Valid, upd, deNew, hmax]
